@@ -137,6 +137,17 @@ impl AnalysisResult {
         units.min(u32::MAX as usize) as u32
     }
 
+    /// The UTF-16 offset of the end of a 0-based line.
+    pub fn line_end_col(&self, line: u32) -> u32 {
+        match self.line_text(line) {
+            Some(text) => {
+                let text = text.strip_suffix('\r').unwrap_or(text);
+                text.encode_utf16().count().min(u32::MAX as usize) as u32
+            }
+            None => u32::MAX,
+        }
+    }
+
     /// Convert a 0-based UTF-16 offset in a line to the byte offset UCG
     /// columns count in. The inverse of `utf16_col`.
     pub fn byte_col(&self, line: u32, character: u32) -> u32 {
